@@ -5,73 +5,7 @@ TLC_BASE = ("Trusted base: TLC 1.8.0 evaluating the TLA+ predicates; the Go abst
             "(harness/mini, Abs/Conc between spec messages and TestAllTypes); the harness reporting "
             "faithfully what the real code returned. ")
 
-CHECKS = {
-    "C01": {
-        "engine": "spec/Resource.tla + ResourceMC/ResourceGen/ResourceTrace.tla (TLC) + harness 'resource'",
-        "technique": "TLA+ sequential register/map specification; TLC model-checks it, generates random programs "
-                     "(contents, options, call sequences), harness runs them on Value/Collection, TLC validates every "
-                     "logged step against the specification's step functions",
-        "text": "Resource.tla gives each call (Get, List, Set, Add, Update, Delete with the full write-option record) a "
-                "step function returning error code, result, new contents, callback firings and emitted event. TLC "
-                "model-checks the spec (store is a sorted map, failed calls are no-ops, generated ids fresh and "
-                "usable, folded subscriber views equal List) and generates thousands of programs; the harness runs "
-                "them on the real code with scripted clock/random source, logs the contents before and after every "
-                "call (read back through the API) and TLC requires each logged step to equal the step function. "
-                "Conformance on the generated programs, bounded model checking of the design; not a proof.",
-        "note": TLC_BASE + "State is read back through Pull seeds and List (cross-checked); ids, times and the random "
-                "source are abstracted to small alphabets.",
-    },
-    "C04": {
-        "engine": "spec/Resource.tla + ResourceMC/ResourceGen/ResourceTrace.tla (TLC) + harness 'resource'",
-        "technique": "TLA+ specification of the exact event per write and of what each kind of subscriber is handed; "
-                     "TLC MC (fold = List), TLC-generated histories with 1-3 backpressured subscribers replayed, TLC "
-                     "validates every delivery",
-        "text": "For every write the spec fixes the emitted event (kind, id, old/new value, change time) and, per "
-                "subscriber option set (updates-only, read mask, equivalence), exactly what is delivered, plus the "
-                "seed block. The harness is itself the receiver of every subscription and uses hook points in the "
-                "forwarding goroutines to know when a write's deliveries are complete; TLC compares each step's "
-                "deliveries with the spec's.",
-        "note": TLC_BASE + "Delivery completeness relies on the verif hook points fwd.got/skip/sent/seeded and "
-                "pub.before/del.removed in pkg/resource.",
-    },
-    "C05": {
-        "engine": "spec/Msg.tla + spec/Masks.tla (TLC) + harness 'masks'",
-        "technique": "TLA+ reference semantics of masked writes; TLC laws (MC), TLC-generated tuples replayed on "
-                     "FieldUpdater/Value/Collection, TLC evaluates the property predicates on the real results",
-        "text": "TLC checks exhaustively over a small message/mask domain that the TLA+ reference merge satisfies "
-                "frame, scalar-assignment, reset and empty-mask clauses; TLC then generates thousands of "
-                "(stored, written, update mask, writable mask, extra-writable, reset mask) tuples, the harness runs "
-                "each through masks.FieldUpdater, Value.Set and Collection.Update built from the working tree, and "
-                "TLC evaluates the property clauses (and equality with the reference merge where the mask must be "
-                "accepted) on every real result. Bounded model checking of the design plus conformance of the code "
-                "on the generated tuples; not a proof for all messages.",
-        "note": TLC_BASE + "Miniature schema (9 fields of TestAllTypes covering implicit/optional scalars, nested "
-                "messages, repeated scalar/message, map, oneof) stands for all field kinds.",
-    },
-    "C06": {
-        "engine": "spec/Msg.tla + spec/Masks.tla (TLC) + harness 'masks'",
-        "technique": "TLA+ declarative projection; TLC laws (MC), TLC-generated (message, mask) pairs replayed on "
-                     "ResponseFilter/Value/Collection/Pull, TLC compares real results with the projection",
-        "text": "TLC checks projection laws (idempotent, monotone, parent+child = parent, leaf-wise "
-                "characterisation) on the TLA+ Project operator, generates (message, mask) pairs including every "
-                "single-path and systematically corrupted mask, the harness runs them through FilterClone, Filter, "
-                "Value.Get, Collection.Get/List and Pull seed/update events, and TLC requires every result to equal "
-                "the projection, the stored message to be unchanged, corrupted masks to be reported InvalidArgument "
-                "and no read to panic.",
-        "note": TLC_BASE + "Pull vias are only exercised for valid masks in-process (a panic in Pull's goroutine "
-                "would kill the harness; such a crash is reported as a violation through crash attribution).",
-    },
-    "C08": {
-        "engine": "spec/Resource.tla + ResourceMC/ResourceGen/ResourceTrace.tla (TLC) + harness 'resource'",
-        "technique": "TLA+ specification of include-filtered List/Pull; TLC MC proves fold(filtered stream) = filtered "
-                     "List on the spec for value-, id- and absence-sensitive predicates; generated histories x random "
-                     "truth-table predicates replayed and validated by TLC",
-        "text": "Include predicates are truth tables over (id, value class incl. absent). TLC checks on the spec that "
-                "every subscriber's folded view equals List with the same predicate after every call, and validates "
-                "each real delivery (ADD/REMOVE translation, nothing for excluded-to-excluded, seed = filtered list).",
-        "note": TLC_BASE + "Predicates depend on the id and on the value's default_int32 class only.",
-    },
-}
+# per-property entries live in lib/checks/cNN.py as MANIFEST = {engine, technique, text, note[, level]}
 
 NOT_APPLICABLE = []
 
